@@ -17,6 +17,7 @@
    which the code checks.  The property itself (Encapsulated, bottom) is stated separately from
    these rules and TLC checks that the rules imply it on the whole universe.                     *)
 EXTENDS Integers, Sequences, FiniteSets, TLC
+CONSTANT Mut     \* "" = the rules as coded; otherwise the name of a deliberately weakened rule (negative runs)
 
 None == ""
 Actors == [
@@ -24,7 +25,10 @@ Actors == [
   AXm |-> [pkg |-> "A", bp |-> "X", recv |-> "x1", ctx |-> "x1", selfOuter |-> None],
   BOf |-> [pkg |-> "B", bp |-> "Outer", recv |-> None, ctx |-> None, selfOuter |-> None],
   BOm |-> [pkg |-> "B", bp |-> "Outer", recv |-> "o1", ctx |-> "o1", selfOuter |-> None],
-  BIm |-> [pkg |-> "B", bp |-> "Inner", recv |-> "i1", ctx |-> "o1", selfOuter |-> "o1"]]
+  BIm |-> [pkg |-> "B", bp |-> "Inner", recv |-> "i1", ctx |-> "o1", selfOuter |-> "o1"],
+  AYm |-> [pkg |-> "A", bp |-> "Y", recv |-> "y1", ctx |-> "y1", selfOuter |-> None],
+  BOm2 |-> [pkg |-> "B", bp |-> "Outer", recv |-> "o2", ctx |-> "o2", selfOuter |-> None],
+  BIm2 |-> [pkg |-> "B", bp |-> "Inner", recv |-> "i2", ctx |-> "o2", selfOuter |-> "o2"]]
 ActorNames == DOMAIN Actors
 
 (* blueprints of the test packages: inner blueprints name their outer blueprint; which have a KV collection *)
@@ -34,7 +38,7 @@ Blueprints == {
 BpOf(pkg, bp) == CHOOSE b \in Blueprints : b.pkg = pkg /\ b.bp = bp
 BpExists(pkg, bp) == \E b \in Blueprints : b.pkg = pkg /\ b.bp = bp
 (* blueprint of the global fixtures, by marker *)
-NodeBp == [x1 |-> "X", y1 |-> "Y", o1 |-> "Outer", o2 |-> "Outer", i1 |-> "Inner"]
+NodeBp == [x1 |-> "X", y1 |-> "Y", o1 |-> "Outer", o2 |-> "Outer", i1 |-> "Inner", i2 |-> "Inner"]
 
 Obj(pkg, bp, outer, global, stored, proof) ==
   [kind |-> "object", pkg |-> pkg, bp |-> bp, outer |-> outer, global |-> global, stored |-> stored, proof |-> proof]
@@ -53,7 +57,7 @@ Targets == [
   gBO1 |-> Obj("B", "Outer", None, TRUE, TRUE, FALSE), gBO2 |-> Obj("B", "Outer", None, TRUE, TRUE, FALSE)]
 (* the actor's own receiver as a target *)
 SelfTarget(a) ==
-  IF a.recv = "i1" THEN Obj("B", "Inner", "o1", FALSE, TRUE, FALSE) ELSE Obj(a.pkg, a.bp, None, TRUE, TRUE, FALSE)
+  IF a.selfOuter # None THEN Obj(a.pkg, a.bp, a.selfOuter, FALSE, TRUE, FALSE) ELSE Obj(a.pkg, a.bp, None, TRUE, TRUE, FALSE)
 TargetOf(a, t) == IF t = "self" THEN SelfTarget(a) ELSE Targets[t]
 
 E(cls) == cls
@@ -67,11 +71,13 @@ HandoverRefused == "setup:CallFrame:CreateFrameError.PassMessageError.DirectRefN
 (* kernel message passing: an argument may carry owned nodes (moved) and references to GLOBAL nodes;
    a reference to an internal node is only accepted as a direct-access reference the caller already holds *)
 Handover(t, how) == IF how = "ref" /\ ~t.global THEN HandoverRefused ELSE "ok"
-Owns(how) == how = "own"
+Owns(how) == how \in {"own", "own2"}      \* own2: moved through one more frame on the way
 
 (* drop_object *)
 DropAllowed(a, t) ==
-  IF t.proof THEN t.pkg = a.pkg /\ t.bp = a.bp            \* proofs: no outer-object rule, only their own blueprint
+  IF Mut = "dropByPackage" THEN t.pkg = a.pkg
+  ELSE IF Mut = "dropIgnoresOuter" /\ t.outer # None THEN TRUE
+  ELSE IF t.proof THEN t.pkg = a.pkg /\ t.bp = a.bp            \* proofs: no outer-object rule, only their own blueprint
   ELSE IF t.outer # None THEN a.ctx = t.outer              \* inner objects: the instance context must be their outer object
   ELSE t.pkg = a.pkg /\ t.bp = a.bp                        \* otherwise the blueprint itself
 Drop(a, t, how) ==
@@ -82,7 +88,7 @@ Drop(a, t, how) ==
 
 (* globalize with a reservation made for blueprint (rp, rb); obj = the node to globalize *)
 GlobalizeWith(a, rp, rb, obj, how) ==
-  IF rp # a.pkg THEN GlobalizeDenied                       \* the reservation must be for the actor's package
+  IF rp # a.pkg /\ Mut # "globalizeAnyPackage" THEN GlobalizeDenied   \* the reservation must be for the actor's package
   ELSE IF obj.kind # "object" THEN NotAnObject
   ELSE IF obj.global THEN CannotGlobalize                  \* AlreadyGlobalized
   ELSE IF obj.pkg # rp \/ obj.bp # rb THEN CannotGlobalize \* InvalidBlueprintId
